@@ -5,7 +5,7 @@ import json, subprocess, sys, os
 pkgs = sys.argv[1:] or ["./..."]
 env = dict(os.environ, GOPROXY="off")
 env.pop("GOFLAGS", None)
-p = subprocess.run(["go", "test", "-mod=mod", "-json", "-vet=off", "-count=1", "-timeout", "25m"] + pkgs, cwd="/repo", env=env, stdout=subprocess.PIPE, stderr=subprocess.DEVNULL, text=True)
+p = subprocess.run(["go", "test", "-mod=mod", "-json", "-vet=off", "-count=1", "-timeout", "6m"] + pkgs, cwd="/repo", env=env, stdout=subprocess.PIPE, stderr=subprocess.DEVNULL, text=True)
 res = {}
 for line in p.stdout.splitlines():
     try:
